@@ -6,6 +6,7 @@ package e2e
 
 import (
 	"crypto/sha256"
+	"encoding/json"
 	"encoding/hex"
 	"fmt"
 	"os"
@@ -28,6 +29,7 @@ type EngOpts struct {
 	PNoop               int    // percent of steps that rebuild the unchanged tree
 	DirHeavy            bool   // prefer directory outputs and renames inside them
 	Threads             int
+	cleanMemo           map[string]EngStep // clean reference results by (tree, request): a tree seen again is not rebuilt
 }
 
 type EngStep struct {
@@ -223,6 +225,7 @@ func engBreakOrFix(r *lib.Rng, s *Spec) (Edit, bool) {
 // EngRunHistory generates a repository and a history and runs the real plz at every step.
 func EngRunHistory(r *lib.Rng, base string, o EngOpts) []EngStep {
 	spec, order := EngGenSpec(r, o)
+	o.cleanMemo = map[string]EngStep{}
 	repo := NewRepo(base, "repo")
 	repo.Threads = o.Threads
 	if o.Cache != "" {
@@ -295,6 +298,12 @@ func EngBuild(repo *Repo, base string, spec *Spec, order, req []string, index in
 		st.Stderr = tail(res.Stderr+res.Stdout, 1200)
 	}
 	if o.CleanRef {
+		js, _ := json.Marshal(spec)
+		key := string(js) + "|" + strings.Join(req, " ")
+		if m, ok := o.cleanMemo[key]; ok {
+			st.CleanExit, st.CleanExec, st.Clean, st.CleanStr = m.CleanExit, m.CleanExec, m.Clean, m.CleanStr
+			return st
+		}
 		clean := repo.CleanCopy(base, "clean", spec)
 		cres := clean.Run(90*time.Second, append(args, req...)...)
 		st.CleanExit, st.CleanExec = cres.Exit, cres.Executed
@@ -302,6 +311,9 @@ func EngBuild(repo *Repo, base string, spec *Spec, order, req []string, index in
 		st.CleanStr = map[string]string{}
 		for l, m := range st.Clean {
 			st.CleanStr[l] = outStr(m)
+		}
+		if o.cleanMemo != nil {
+			o.cleanMemo[key] = st
 		}
 	}
 	return st
@@ -542,4 +554,55 @@ func StaleClass(spec *Spec, label string, got, want map[string]map[string]*Node)
 		}
 	}
 	return "stale-output"
+}
+
+// ---------------------------------------------------------------------------------------------
+// Fixed witness histories for the directory-hash defect (every run reproduces the listed findings)
+
+type EngWitness struct {
+	Name  string
+	Specs []*Spec
+	Order []string
+}
+
+func witnessSpec(files map[string]string, dirSrcs []string, withList bool) *Spec {
+	p := &Pkg{Files: files}
+	p.Targets = append(p.Targets, &Target{Name: "d", Kind: "genrule", Srcs: dirSrcs, Outs: []string{"d_dir"}, Cmd: Cmd{Op: "copydir"}, OutIsDir: true})
+	if withList {
+		p.Targets = append(p.Targets, &Target{Name: "l", Kind: "genrule", Srcs: []string{"//p:d"}, Outs: []string{"l.names"}, Cmd: Cmd{Op: "listnames"}})
+	}
+	return &Spec{Pkgs: map[string]*Pkg{"p": p}}
+}
+
+func EngWitnesses() []EngWitness {
+	return []EngWitness{
+		{"rename-entry", []*Spec{
+			witnessSpec(map[string]string{"a.txt": "x"}, []string{"a.txt"}, false),
+			witnessSpec(map[string]string{"b.txt": "x"}, []string{"b.txt"}, false)}, []string{"//p:d"}},
+		{"move-bytes", []*Spec{
+			witnessSpec(map[string]string{"a.txt": "xy", "b.txt": "z"}, []string{"a.txt", "b.txt"}, false),
+			witnessSpec(map[string]string{"a.txt": "x", "b.txt": "yz"}, []string{"a.txt", "b.txt"}, false)}, []string{"//p:d"}},
+		{"dependent", []*Spec{
+			witnessSpec(map[string]string{"a.txt": "x"}, []string{"a.txt"}, true),
+			witnessSpec(map[string]string{"b.txt": "x"}, []string{"b.txt"}, true)}, []string{"//p:d", "//p:l"}},
+	}
+}
+
+// EngRunSpecs builds every tree of the sequence in turn (all targets requested); wipeAt lists step indices
+// before which plz-out is deleted.
+func EngRunSpecs(base string, specs []*Spec, order []string, o EngOpts, wipeAt map[int]bool) []EngStep {
+	repo := NewRepo(base, "repo")
+	if o.Cache != "" {
+		repo.CacheDir = base + "/cache"
+		repo.Compress = o.Cache == "dircompress"
+	}
+	var h []EngStep
+	for i, s := range specs {
+		if wipeAt[i] {
+			repo.RemovePlzOut()
+		}
+		repo.Write(s)
+		h = append(h, EngBuild(repo, base, s, order, s.Labels(), i, Edit{Kind: "fixed", What: fmt.Sprint(i)}, wipeAt[i], o))
+	}
+	return h
 }
